@@ -44,6 +44,7 @@ structure St where
   watches : List Watch := []
   veto : Bool := false
   mock : Bool := false
+  pfx : Bool := false           -- the store has a key prefix
   genIds : Bool := false        -- mockstore with NewID: an empty id is replaced by a generated one
   gen : Nat := 0
   seeded : Bool := false        -- Init has run
@@ -210,6 +211,18 @@ def runExt (st : St) (args : List Str) : Option (St × String × String × Strin
         let spec := if same = str "same" ∧ cont = str "W" then "blocked:T" else "-"
         some (st, "blocked:" ++ encBool m, spec, "excl-" ++ Str.show held ++ Str.show cont ++ "-" ++ Str.show same)
       | _ => some (st, "bad-op", "-", "bad")
+    else if c = str "collide" then
+      match rest with
+      | [id] =>
+        -- specification: the value is served and found by the query before and after the rebuild
+        let want := s!"query=[{encField id}] value-after-rebuild=val:zz/g query-after-rebuild=[{encField id}]"
+        -- model: value keys are `<prefix><id>`, index entries `<name>:<key>\0<id>`; without a prefix an id
+        -- starting with `k:` lies inside index k's key range: the scan meets an entry without separator
+        -- (error) and RebuildIndexes' DropPrefix removes the value (known finding)
+        let collides := !st.mock ∧ !st.pfx ∧ (str "k:").isPrefixOf id
+        let m := if collides then "query=err value-after-rebuild=err:notfound query-after-rebuild=[]" else want
+        some (st, m, want, if collides then "collide-keyspace" else "collide-none")
+      | _ => some (st, "bad-op", "-", "bad")
     else if c = str "hist" then
       match rest with
       | kind :: entries =>
@@ -252,7 +265,7 @@ def run (st : St) (args : List Str) (impl : String) : St × String × String × 
         (st', "ok cbs=" ++ (if fresh.isEmpty then "-" else ";".intercalate ((fresh.map fun e => cbStr e.1 none (some e.2)))), "-", "init-first")
     else bad
   | [c, a] =>
-    if c = str "cfg" then ({ mock := a = str "mock" ∨ a = str "mockid", genIds := a = str "mockid" }, "ok", "-", "triv-cfg")
+    if c = str "cfg" then ({ mock := a = str "mock" ∨ a = str "mockid", genIds := a = str "mockid", pfx := a = str "badgerp" }, "ok", "-", "triv-cfg")
     else if c = str "veto" then ({ st with veto := a = str "on" }, "ok", "-", "triv-veto")
     else if c = str "delete" then
       let (o, st', tag) := mutate st a .delete
@@ -289,7 +302,11 @@ def run (st : St) (args : List Str) (impl : String) : St × String × String × 
       let mo := match m with | some ids => encIds ids | none => "err"
       let sp := encIds (spec (entriesOf ix st.vals) pre (filterFn filt) (int off) (int lim) (rev = str "T"))
       -- the index reflects the values only after a flush
-      let spec := if !st.tasks.isEmpty then "-" else sp
+      -- keys containing 0x00 are not ordered by (key, id) on disk (known finding): the result of a
+      -- full-window query is then a permutation of the expected one; for a windowed query the
+      -- specification gives no opinion in that state
+      let windowed := int off ≠ 0 ∨ int lim ≥ 0
+      let spec := if !st.tasks.isEmpty then "-" else if hasNul st ∧ windowed then "-" else sp
       let tag := "query" ++ (if rev = str "T" then "-rev" else "") ++ (if pre.isEmpty then "-all" else "") ++
         (if (int lim) < 0 then "-nolimit" else if int lim = 0 then "-zero" else "") ++ (if int off > 0 then "-offset" else "") ++
         (if filt ≠ str "none" then "-filter" else "") ++ (match m with | some [] => "-empty" | _ => "") ++ (if hasNul st then "-nul" else "")
